@@ -144,7 +144,7 @@ def run(ck):
     ck.assumptions = ["probabilities are preimage counts under a uniform tape", "independence across coefficients: each output coefficient is a function of its own tape segment (by construction of the models: map over words)",
                       "fixed weight: the slot-array -> subset refinement is tied by the exhaustive enumeration for n <= 8 (set-level uniformity proved for all n,h in Reservoir.v)"]
     vf.run_deps(ck, ['C09'])
-    return ck.finish(trusted=["coqc 8.16.1 kernel", "extraction + driver.ml", "h_samplers.cpp (scripted tape)", "translator"], extra_cov={"params_sha": info, "exhaustive": True})
+    return ck.finish(trusted=["coqc 8.16.1 kernel", "extraction + driver.ml", "h_samplers.cpp (scripted tape)", "source readers: tools/dump_params (tables), cxxloop2coq.py (samplers), cxxhwt2coq.py + HwtSem.v (set(hwt_dist))"], extra_cov={"params_sha": info, "exhaustive": True})
 
 def replay(ck, rec):
     print("replay case:", rec.get("case", "")[:300]); return 1
